@@ -81,4 +81,105 @@ Section Proofs.
         apply IH. congruence.
       + apply IH. congruence.
   Qed.
+
+  (* ---- what one result set sees: its own operations, nothing else ---- *)
+
+  Inductive lop := LExec (input : stack) | LPull | LDestroy.
+
+  Definition view1 (r : nat) (o : op) : option lop :=
+    match o with
+    | Execute k i => if Nat.eqb k r then Some (LExec i) else None
+    | Pull k => if Nat.eqb k r then Some LPull else None
+    | Destroy k => if Nat.eqb k r then Some LDestroy else None
+    end.
+
+  Fixpoint view (r : nat) (h : list op) : list lop :=
+    match h with
+    | [] => []
+    | o :: h' => match view1 r o with Some l => l :: view r h' | None => view r h' end
+    end.
+
+  (* one result set on its own: no table, no identifiers *)
+  Fixpoint run_local (st : option rstate) (l : list lop) : list answer :=
+    match l with
+    | [] => []
+    | LExec i :: l' => run_local (Some (prog, LOrigin (Some i), [])) l'
+    | LDestroy :: l' => run_local None l'
+    | LPull :: l' =>
+      match st with
+      | None => ANoSuch :: run_local None l'
+      | Some s => let '(a, st') := pull1 P blks fuel s in a :: run_local st' l'
+      end
+    end.
+
+  Lemma view1_concerns r o : concerns r o = false <-> view1 r o = None.
+  Proof. destruct o as [k i|k|k]; cbn; destruct (Nat.eqb k r); split; congruence. Qed.
+
+  Theorem history_is_local r : forall h t,
+    answers_for r (run_hist t h) = run_local (tget t r) (view r h).
+  Proof.
+    induction h as [|o h IH]; intros t; cbn [run_hist view]; auto.
+    destruct (concerns r o) eqn:C.
+    - destruct o as [k i|k|k]; cbn [concerns] in C; apply Nat.eqb_eq in C; subst k;
+        cbn [view1 step]; rewrite Nat.eqb_refl.
+      + cbn [run_local]. rewrite IH, tget_tset_same. reflexivity.
+      + destruct (tget t r) as [st|] eqn:G.
+        * cbn [run_local]. destruct (pull1 P blks fuel st) as [a [st'|]].
+          -- unfold answers_for. cbn [filter fst]. rewrite Nat.eqb_refl. cbn [map snd]. f_equal.
+             fold (answers_for r (run_hist (tset t r st') h)). rewrite IH, tget_tset_same. reflexivity.
+          -- unfold answers_for. cbn [filter fst]. rewrite Nat.eqb_refl. cbn [map snd]. f_equal.
+             fold (answers_for r (run_hist (tdel t r) h)). rewrite IH, tget_tdel_same. reflexivity.
+        * cbn [run_local]. unfold answers_for. cbn [filter fst]. rewrite Nat.eqb_refl. cbn [map snd]. f_equal.
+          fold (answers_for r (run_hist t h)). rewrite IH, G. reflexivity.
+      + cbn [run_local]. rewrite IH, tget_tdel_same. reflexivity.
+    - pose proof (proj1 (view1_concerns r o) C) as V. rewrite V.
+      destruct (step_other t o r C) as [E' A].
+      destruct (step t o) as [t1 a1]. cbn [fst snd] in E', A.
+      destruct a1 as [[k a]|].
+      + unfold answers_for. cbn [filter fst]. destruct (Nat.eqb_spec k r); [congruence|].
+        fold (answers_for r (run_hist t1 h)). rewrite IH, E'. reflexivity.
+      + rewrite IH, E'. reflexivity.
+  Qed.
+
+  (* two executions - in the same history or in different ones, under any
+     identifiers, whatever else went on - that were driven the same way were
+     told the same *)
+  Corollary same_view_same_answers r1 r2 h1 h2 t1 t2 :
+    tget t1 r1 = tget t2 r2 -> view r1 h1 = view r2 h2 ->
+    answers_for r1 (run_hist t1 h1) = answers_for r2 (run_hist t2 h2).
+  Proof. intros E V. rewrite !history_is_local, E, V. reflexivity. Qed.
+
+  (* a fresh parse-and-run on `input`, pulled n times *)
+  Definition fresh_run (input : stack) (n : nat) : list answer :=
+    run_local None (LExec input :: repeat LPull n).
+
+  Corollary as_a_fresh_run r h t input n :
+    view r h = LExec input :: repeat LPull n ->
+    answers_for r (run_hist t h) = fresh_run input n.
+  Proof. intros V. rewrite history_is_local, V. reflexivity. Qed.
+
+  (* the input stack handed to execute is a value: no operation can change it *)
+  Lemma run_local_app st l1 l2 :
+    run_local st l1 ++ run_local (fold_left (fun st o =>
+        match o with
+        | LExec i => Some (prog, LOrigin (Some i), [])
+        | LDestroy => None
+        | LPull => match st with None => None | Some s => snd (pull1 P blks fuel s) end
+        end) l1 st) l2 = run_local st (l1 ++ l2).
+  Proof.
+    revert st. induction l1 as [|o l1 IH]; intros st; cbn [app fold_left run_local]; auto.
+    destruct o; auto.
+    destruct st as [s|]; [|cbn [app]; f_equal; apply IH].
+    destruct (pull1 P blks fuel s) as [a st'] eqn:E. cbn [snd app]. f_equal. apply IH.
+  Qed.
+
+  (* abandoning a result set and executing again on the same input starts over:
+     the prefix pulled before has no influence *)
+  Corollary reexecute_starts_over r h t l input n :
+    view r h = l ++ LExec input :: repeat LPull n ->
+    exists before, answers_for r (run_hist t h) = before ++ fresh_run input n.
+  Proof.
+    intros V. rewrite history_is_local, V, <- run_local_app.
+    eexists. f_equal.
+  Qed.
 End Proofs.
